@@ -15,6 +15,10 @@
 //   st  <view> <axis> <c> <i> <nlo> <nhi> <m>   -> x (axis 0, row c) / y (axis 1, column c) iterator laws
 //   mv  <view> <x0> <y0> <moves...>   -> locator after a move program vs. xy_at of the summed offset
 //   pli <view> <y> <i> <d>            -> raw planar x-iterator it = row_begin(y)+i with ALL its planes: planes of it, of it[d], of it+d; (it+d)-it; < > <= >= == !=
+//   pnav <view> <cx> <cy>             -> planar kinds (pl8 pl16 pd2 pd5 = 3 / 3 / 2 / 5 planes): `w h N | address of EVERY plane's channel of view(x,y), per pixel |`
+//                                        and a 3rd group `x y path plane got want` iff the reference / iterator some other path yields (row_begin(y)[x],
+//                                        *(row_begin(y)+x), col_begin(x)[y], begin()[i], *at, rbegin()[..], *xy_at, *x_at, loc(dx,dy), loc[point], loc[cached], *loc.x_at
+//                                        from xy_at(cx,cy)) designates another address in some plane
 //   bit <B> <off> <n>                 -> bit iterator: memunit_advance by n bits, distance, advance back (huge range)
 //   bitit <B> <off> <k>               -> bit iterator: it + k pixels, (it+k) - it, ordering, (it+k) - k
 #include <boost/gil.hpp>
@@ -84,6 +88,22 @@ template <class T> struct K_planar {
     static view_t make(long W, long H, long PAD, long) {
         return gil::planar_rgb_view(W, H, (T*)ORG, (T*)(ORG + PLANE), (T*)(ORG + 2 * PLANE), W * (long)sizeof(T) + PAD); }
 };
+static const long PLANE_N = 1 << 16;     // plane distance of the 2- and 5-plane kinds (5 planes fit into the arena behind ORG)
+template <class K> struct spacing_of { static constexpr long value = 0; };
+template <int N> struct K_planarN;      // N planes of uint8 (devicen_t<N>), planes PLANE bytes apart; planar_devicen_view does not compile in this tree
+template <> struct K_planarN<2> {
+    static constexpr bool virt = false;
+    using it_t = gil::planar_pixel_iterator<std::uint8_t*, gil::devicen_t<2>::type>;
+    using view_t = gil::type_from_x_iterator<it_t>::view_t;
+    static view_t make(long W, long H, long PAD, long) { return view_t(W, H, view_t::locator(it_t(ORG, ORG + PLANE_N), W + PAD)); }
+};
+template <> struct K_planarN<5> {
+    static constexpr bool virt = false;
+    using it_t = gil::planar_pixel_iterator<std::uint8_t*, gil::devicen_t<5>::type>;
+    using view_t = gil::type_from_x_iterator<it_t>::view_t;
+    static view_t make(long W, long H, long PAD, long) {
+        return view_t(W, H, view_t::locator(it_t(ORG, ORG + PLANE_N, ORG + 2 * PLANE_N, ORG + 3 * PLANE_N, ORG + 4 * PLANE_N), W + PAD)); }
+};
 template <class Img, int Bits> struct K_bit {
     static constexpr bool virt = false;
     using view_t = typename Img::view_t;
@@ -96,6 +116,8 @@ struct K_virtual {
     using view_t = gil::image_view<loc_t>;
     static view_t make(long W, long H, long PAD, long OFF) { return view_t(gil::point_t(W, H), loc_t(gil::point_t(PAD, OFF), gil::point_t(1, 1))); }
 };
+template <class T> struct spacing_of<K_planar<T>> { static constexpr long value = 1 << 17; };
+template <int N> struct spacing_of<K_planarN<N>> { static constexpr long value = 1 << 16; };
 using p565_img_t = gil::packed_image3_type<std::uint16_t, 5, 6, 5, gil::rgb_layout_t>::type;
 
 // ---------------------------------------------------------------- transformations interpreted at run time
@@ -138,7 +160,7 @@ template <class C, class CS> struct is_raw_planar<gil::planar_pixel_iterator<C, 
 // ---------------------------------------------------------------- op handlers (generic over the view type)
 template <bool Virt> struct Ops {
     std::vector<std::string> const& w; size_t a;   // a = index of the first op-specific argument
-    std::string out;
+    std::string out; long spacing = 0;      // distance between the planes of the source (planar kinds)
     Ops(std::vector<std::string> const& w_, size_t a_) : w(w_), a(a_) {}
     long arg(size_t k) const { return hv::to_ll(w.at(a + k)); }
 
@@ -216,9 +238,50 @@ template <bool Virt> struct Ops {
         put(out, X); put(out, Y);
     }
 
+    // addresses (relative to ORG) of the channels of a planar reference, in plane order
+    template <class R> static std::vector<long long> planes_of(R const& r) {
+        std::vector<long long> a;
+        gil::static_for_each(r, [&](auto const& ch) { a.push_back((const unsigned char*)&ch - ORG); });
+        return a;
+    }
+    template <class V> void pnav(V const& v) {
+        if constexpr (gil::is_planar<V>::value) {
+            long W = v.width(), H = v.height(), cx = arg(0), cy = arg(1);
+            constexpr int N = gil::num_channels<V>::value;
+            put(out, W); put(out, H); put(out, N); out += "| ";
+            bool bad = false; long long mm[6] = {0, 0, 0, 0, 0, 0};
+            using pt = typename V::point_t;
+            for (long y = 0; y < H; ++y) for (long x = 0; x < W; ++x) {
+                std::vector<long long> a0 = planes_of(v(x, y));
+                for (long long a : a0) put(out, a);
+                std::vector<std::vector<long long>> ps;
+                ps.push_back(planes_of(v.row_begin(y)[x]));
+                ps.push_back(planes_of(*(v.row_begin(y) + x)));
+                ps.push_back(planes_of(v.col_begin(x)[y]));
+                ps.push_back(planes_of(v.begin()[y * W + x]));
+                ps.push_back(planes_of(*v.at(x, y)));
+                ps.push_back(planes_of(v.rbegin()[W * H - 1 - (y * W + x)]));
+                ps.push_back(planes_of(*v.xy_at(x, y)));
+                ps.push_back(planes_of(*v.x_at(x, y)));
+                { auto loc = v.xy_at(cx, cy);
+                  ps.push_back(planes_of(loc(x - cx, y - cy)));
+                  ps.push_back(planes_of(loc[pt(x - cx, y - cy)]));
+                  auto cl = loc.cache_location(x - cx, y - cy); ps.push_back(planes_of(loc[cl]));
+                  ps.push_back(planes_of(*loc.x_at(x - cx, y - cy))); }
+                // the law every path must obey: plane k of pixel (x,y) = plane k of pixel (0,0) moved by the same offset in every plane
+                for (size_t p = 0; p < ps.size() && !bad; ++p) for (int k = 0; k < N && !bad; ++k) {
+                    long long want = a0[0] + (long long)k * spacing;
+                    if (ps[p][k] != want) { bad = true; mm[0] = x; mm[1] = y; mm[2] = (long long)p + 1; mm[3] = k; mm[4] = ps[p][k]; mm[5] = want; }
+                }
+            }
+            out += "| ";
+            if (bad) for (long long q : mm) put(out, q);
+        } else out = "bad-op";
+    }
+
     template <class V> void pli(V const& v) {
         using xit = typename V::x_iterator;
-        if constexpr (is_raw_planar<xit>::value) {
+        if constexpr (is_raw_planar<xit>::value && gil::num_channels<V>::value == 3) {
             long y = arg(0), i = arg(1), d = arg(2);
             xit it0 = v.row_begin(y) + i;
             auto planes = [&](xit const& it) {
@@ -234,6 +297,7 @@ template <bool Virt> struct Ops {
 
     template <class V> void operator()(V const& v) {
         if (w[0] == "pli") { if constexpr (!Virt) pli(v); else out = "bad-op"; return; }
+        if (w[0] == "pnav") { if constexpr (!Virt) pnav(v); else out = "bad-op"; return; }
         if (w[0] == "nav") nav(v); else if (w[0] == "ra") ra(v); else if (w[0] == "st") st(v); else if (w[0] == "mv") mv(v);
         else out = "bad-op";
     }
@@ -242,7 +306,7 @@ template <bool Virt> struct Ops {
 template <class K> std::string view_op(std::vector<std::string> const& w) {
     long W = hv::to_ll(w[2]), H = hv::to_ll(w[3]), PAD = hv::to_ll(w[4]), OFF = hv::to_ll(w[5]);
     auto xs = parse_xf(w[6]);
-    Ops<K::virt> ops(w, 7);
+    Ops<K::virt> ops(w, 7); ops.spacing = spacing_of<K>::value;
     walk(K::make(W, H, PAD, OFF), xs, 0, ops);
     return ops.out;
 }
@@ -281,7 +345,7 @@ int main() {
     HUGE_ORG = huge == MAP_FAILED ? nullptr : (unsigned char*)huge + (1ul << 29);
     return hv::run([](std::string const& line) -> std::string {
         auto w = hv::words(line);
-        if (w.size() >= 7 && (w[0] == "nav" || w[0] == "ra" || w[0] == "st" || w[0] == "mv" || w[0] == "pli")) {
+        if (w.size() >= 7 && (w[0] == "nav" || w[0] == "ra" || w[0] == "st" || w[0] == "mv" || w[0] == "pli" || w[0] == "pnav")) {
             std::string const& k = w[1];
 #if KGROUP == 0 || KGROUP == 1
             if (k == "g8") return view_op<K_inter<gil::gray8_pixel_t>>(w);
@@ -295,6 +359,10 @@ int main() {
             if (k == "pl8") return view_op<K_planar<std::uint8_t>>(w);
             if (k == "pl16") return view_op<K_planar<std::uint16_t>>(w);
             if (k == "v") return view_op<K_virtual>(w);
+#endif
+#if KGROUP == 0 || KGROUP == 4
+            if (k == "pd2") return view_op<K_planarN<2>>(w);
+            if (k == "pd5") return view_op<K_planarN<5>>(w);
 #endif
 #if KGROUP == 0 || KGROUP == 3
             if (k == "b1") return view_op<K_bit<b1_t, 1>>(w);
